@@ -113,6 +113,26 @@ func (p *Prog) SliceOffsets(fi *FuncInfo) *SliceOffsets {
 					continue
 				}
 			}
+			if b.Kind == cfg.KindRangeBody {
+				if rs, ok := b.Stmt.(*ast.RangeStmt); ok {
+					in = in.clone()
+					for _, e := range []ast.Expr{rs.Key, rs.Value} {
+						if id, ok := e.(*ast.Ident); ok {
+							o := p.Info.Defs[id]
+							if o == nil {
+								o = p.Info.Uses[id]
+							}
+							if v, ok := o.(*types.Var); ok {
+								if isByteSliceLike(v.Type()) {
+									in[v] = SliceInfo{v, 0} // each element is its own root
+								} else {
+									delete(in, v)
+								}
+							}
+						}
+					}
+				}
+			}
 			if old, ok := so.in[b]; ok && old.equal(in) && out[b] != nil {
 				continue
 			}
